@@ -12,8 +12,9 @@ EXTENDS Trace_ImbMgr
 
 CONSTANTS LaneCount, LaneStrict,
           Family,      \* "simple": OooLanes (single-phase cipher lanes), "hmac": OooHmac (multi-phase hash lanes)
-          LaneBlk      \* hmac: block size 64 or 128
-OS == INSTANCE OooLanes WITH L <- LaneCount, MAXLEN <- 65535
+          LaneBlk,     \* hmac: block size 64 or 128
+          LaneRound    \* simple: kernel granularity (1; 4 for ZUC-EEA3)
+OS == INSTANCE OooLanes WITH L <- LaneCount, MAXLEN <- 65535, R <- LaneRound
 OH == INSTANCE OooHmac WITH L <- LaneCount, MAXLEN <- 65535, BLK <- LaneBlk,
                             PADMIN <- IF LaneBlk = 128 THEN 17 ELSE 9, Track <- FALSE
 NOJ == 0
